@@ -751,6 +751,7 @@ func runC09(c *core.Ctx) core.Meta {
 	checkGridBuilderPerDispatcher(c)
 	checkLDSMaskUnits(c)
 	checkUnitsUseOwnGranularity(c)
+	checkMaskConversionCoversAllSIMDs(c)
 	return core.Meta{Level: "other",
 		Explanation: "Structural clauses of work-group dispatch decided on SSA of the dispatcher, the three placement algorithms (as siblings of one interface), the CU resource bookkeeping and the CP's dispatcher selection: valid location only after a successful reservation on the named CU, counter/slot updates on the success path, SEND-DISCIPLINE and PAIR on the map request, completion accounting per ID, launch response only under kernelCompleted() (whose three conjuncts are checked), idle-dispatcher selection, reserve/commit/clear/free symmetry of masks, status constants, slot counts and offset granularities.",
 		NotDecided:  "that masks never overlap for every demand sequence (value level); resourceMask internals; LDS demand taken from the right descriptor field; CU-side completion (decided under C14)",
